@@ -356,6 +356,28 @@ func c13GlueCheck(c *fw.Ctx, a, op, b string) *fw.Violation {
 	return nil
 }
 
+// c13GlueOperands: an operator glued to what follows and to what precedes it -- an index, a call, a member, a group, $, a
+// string, a postfix -- means what it means with blanks around it.
+func c13GlueOperands(c *fw.Ctx, op, b string) *fw.Violation {
+	pre := "function g(v) { return v + 1 }\nBEGIN { q = [4, 5]; o = {k: 6}; n = 7; "
+	for _, left := range []string{"q[1]", "g(2)", "o.k", "(3)", "\"s\"", "n", "q[0][0]", "o.k.floor()", "q.length()", "true", "null"} {
+		spaced := pre + "z = " + left + " " + op + " " + b + "; print z }"
+		sp := drive.Spec{Program: spaced}
+		want := run(c, sp)
+		for _, form := range []string{left + op + b, left + " " + op + b, left + op + " " + b} {
+			s := drive.Spec{Program: pre + "z = " + form + "; print z }"}
+			o := run(c, s)
+			c.Traces++
+			c.Transitions++
+			if o.Kind != want.Kind || o.Stdout != want.Stdout {
+				o.Ev, want.Ev = nil, nil
+				return &fw.Violation{What: "layout: an operator glued to its operands does not mean what it means with blanks around it", Detail: map[string]any{"glued": s.Program, "spaced": spaced, "got": o, "want": want}}
+			}
+		}
+	}
+	return nil
+}
+
 // ----- (v) keywords are recognised only as whole words -----
 
 func c13KeywordCheck(c *fw.Ctx, name string) *fw.Violation {
@@ -375,7 +397,7 @@ func init() {
 		ID: "C13",
 		Rule: fmt.Sprintf("(i) %d seed programs (every statement and expression form) as token lists: every gap x its permitted deviations (two blanks, tab, CR, newline and comment+newline where DESIGN.md 3.18 allows a line break, ';' / blank lines / CRLF / a comment for statement separators) and every pair of such deviations (thorough: triples on the gaps of a line-break-only deviation set); ", ns) +
 			"oracle: same stdout, outcome and JSON output as the canonical layout (which the model confirms); (ii) every ordered pair and triple of the 66 token spellings written without blanks, and with one blank, through the lexer hook against a reference lexer written from 3.18 (segmentation, token class, lexical validity); " +
-			"(iii) all string literal contents of length <= 3 (thorough 4) over {a, blank, #, ', \", \\, n, t, q, é} in both quote styles against the model's escape rules, concatenated / assigned and as the only literal of the program in 14 syntactic positions (operand of == != < >= on either side, if condition, match pattern and subject, index key, call / printf / contains argument, array element, object value, method receiver, && operand, return value) compared with the denoted string supplied by the input; (iv) numerals incl. leading zeros, every prefix of four 25-digit strings with the point at every place (1 300 numerals) against a math/big nearest-double oracle, string literals / names / regex literals of 255 ... 131 077 bytes, and every numeral-operator-numeral spelling without blanks; " +
+			"(iii) all string literal contents of length <= 3 (thorough 4) over {a, blank, #, ', \", \\, n, t, q, é} in both quote styles against the model's escape rules, concatenated / assigned and as the only literal of the program in 14 syntactic positions (operand of == != < >= on either side, if condition, match pattern and subject, index key, call / printf / contains argument, array element, object value, method receiver, && operand, return value) compared with the denoted string supplied by the input; (iv) numerals incl. leading zeros, every prefix of four 25-digit strings with the point at every place (1 300 numerals) against a math/big nearest-double oracle, string literals / names / regex literals of 255 ... 131 077 bytes, every numeral-operator-numeral spelling without blanks, and every operator glued between 11 kinds of left operand (index, call, member, group, string, postfix call ...) and a numeral; " +
 			"7 pairs of texts for the two places where a newline is NOT layout (directly after print / return, after a comma of a print list: it ends the statement); (v) every keyword with a letter, digit or underscore glued before or after it used as a variable; states = lexical classes and literal outcomes; non-trivial = escapes that yield a value",
 		Plan:  func(t fw.Tier) int { return ns*layoutParts + nt + 4 },
 		Bound: func(t fw.Tier) string { return "k=2 layout deviations (thorough: +k=3 over line-break deviations); token pairs and triples; strings <= 3 (4)" },
@@ -498,6 +520,12 @@ func init() {
 						c.Do(func() any { return c13Spec{Form: "long", Seed: n, Q: q} }, func() *fw.Violation { return c13LongCheck(c, n, q) })
 					}
 				}
+				for _, op := range c13GlueOps {
+					for _, b := range []string{"1", "0.5"} {
+						op, b := op, b
+						c.Do(func() any { return c13Spec{Form: "glueops", Text: fw.Text(op + " " + b)} }, func() *fw.Violation { return c13GlueOperands(c, op, b) })
+					}
+				}
 				for _, a := range []string{"3", "1.5", "10", "0", "7"} {
 					for _, b := range []string{"1", "0.5", "2", "3"} {
 						for _, op := range c13GlueOps {
@@ -534,6 +562,9 @@ func init() {
 				return c13StringPosCheck(c, string(s.Text), s.Q[0], s.Seed)
 			case "printcomma":
 				return c13PrintComma(c, s.Seed)
+			case "glueops":
+				f := strings.Fields(string(s.Text))
+				return c13GlueOperands(c, f[0], f[1])
 			case "long":
 				return c13LongCheck(c, s.Seed, s.Q)
 			case "numeral":
